@@ -1,6 +1,7 @@
 """C14: IntoOwned laws hold and items copy faithfully between regions."""
 from fcat import Rng
 from props.regcommon import RB, entries
+from props.hist import encoded_region
 
 ID = "C14"
 THEOREMS = [("FlatModel.Props.C14", t) for t in (
@@ -52,6 +53,33 @@ def one(cat, rng, stack):
     return b.s
 
 
+def encoded(cat, rng):
+    """read items of Huffman-coded compositions in their *encoded* representation"""
+    b = RB(ID, cat, rng)
+    pool = encoded_region(b, rng, "a")
+    b.merge("d", ["r0"])
+    for _ in range(1 + rng.below(5)):
+        v = rng.pick(pool)
+        b.push("a", v, b.form_for(v))
+    vals = list(b.h["a"].vals)
+    for k, v in enumerate(vals):
+        want = b.r(v)
+        for rp in ("backed", "borrowed"):
+            b.raw("item a #%d %s owned" % (k, rp), ("eq", "val " + want), sig="into_owned-differs-encoded", shape="owned")
+            b.raw("item a #%d %s render" % (k, rp), ("eq", "item " + want), sig="borrow_as-differs-encoded", shape="render")
+            t = rng.pick(pool)
+            if t != v and len(t):
+                b.s.nontrivial = True
+            b.raw("item a #%d %s cloneonto %s" % (k, rp, b.r(t)), ("eq", "val " + want), sig="clone_onto-differs-encoded-%s" % rp, shape="cloneonto")
+            kd = len(b.h["d"].vals)
+            b.raw("pushitem d a #%d %s" % (k, rp), ("prefix", "idx"), cmp="status", sig="push-read-item-encoded-%s" % rp, shape="pushitem")
+            b.h["d"].vals.append(v)
+            b.read("d", kd, sig="copied-item-differs-encoded-%s" % rp)
+    b.readall("d", sig="copied-item-differs-encoded")
+    b.readall("a", sig="source-changed-by-copy")
+    return b.s
+
+
 def generate(seed, tier):
     rng = Rng(seed * 47 + 12)
     per = {"quick": 8, "thorough": 100, "search": 40}[tier]
@@ -62,4 +90,7 @@ def generate(seed, tier):
         for st in cat["stacks"][:1]:
             for i in range(max(1, per // 4)):
                 out.append(one(cat, rng.fork(), st))
+        if cat["term"].has("huffman") and cat["item"]:
+            for i in range(per * 2):
+                out.append(encoded(cat, rng.fork()))
     return out
